@@ -529,6 +529,51 @@ pub struct NilCase {
     pub rootsel: u16,
     /// unknown children: (at end?, declaration, inner content) selectors
     pub unknown: Vec<(bool, u16, u16)>,
+    /// attribute-level rewrites applied afterwards: (kind, site, arg); kind 6 order, 7 quote kind,
+    /// 8 spacing, 10 unknown attribute (possibly in the XSI namespace) on a struct element
+    #[serde(default)]
+    pub attr_rws: Vec<(u8, u16, u16)>,
+}
+
+/// insert an unknown attribute into the start tag of the root or of a `c`/`d` element (structs that
+/// ignore unknown fields in both targets' documents... for target 1 only the root is used)
+fn nil_unknown_attr(doc: &str, target: u8, site: u16, arg: u16) -> Option<String> {
+    let toks = refxml::lex(doc.as_bytes());
+    let root_content = match &toks.first()?.tok {
+        Tok::Start(c, _) => String::from_utf8_lossy(c).into_owned(),
+        _ => return None,
+    };
+    let mut names: Vec<&str> = vec!["zz", "y-1"];
+    if root_content.contains("xmlns:xsi=") {
+        names.extend(["xsi:type", "xsi:schemaLocation", "xsi:zz"]);
+    }
+    if root_content.contains("xmlns:n=") {
+        names.extend(["n:type", "n:zz"]);
+    }
+    let sites: Vec<usize> = (0..toks.len())
+        .filter(|k| match &toks[*k].tok {
+            Tok::Start(c, n) | Tok::Empty(c, n) => *k == 0 || (target % 2 == 0 && (&c[..*n] == b"c" || &c[..*n] == b"d")),
+            _ => false,
+        })
+        .collect();
+    let k = sites[scale(site, sites.len())];
+    let l = &toks[k];
+    let (content, empty) = match &l.tok {
+        Tok::Start(c, _) => (String::from_utf8_lossy(c).into_owned(), false),
+        Tok::Empty(c, _) => (String::from_utf8_lossy(c).into_owned(), true),
+        _ => return None,
+    };
+    let (name, mut attrs) = parse_tag(&content)?;
+    let fresh = names[scale(arg, names.len())].to_string();
+    if attrs.iter().any(|(k, _, _)| *k == fresh) {
+        return None;
+    }
+    // a prefix that the element itself rebinds would change the meaning of the new attribute only;
+    // it is an unknown attribute either way
+    let at = if arg % 2 == 0 { 0 } else { attrs.len() };
+    attrs.insert(at, (fresh, "T".into(), if arg % 4 < 2 { '"' } else { '\'' }));
+    let tag = render_tag(&name, &attrs, &[" "]);
+    Some(format!("{}<{}{}>{}", &doc[..l.start], tag, if empty { "/" } else { "" }, &doc[l.end..]))
 }
 
 pub fn check_nil(c: &NilCase) -> Verdict {
@@ -546,13 +591,24 @@ pub fn check_nil(c: &NilCase) -> Verdict {
     let mut all = front;
     all.extend(items.iter().cloned());
     all.extend(back);
-    let rewritten = super::c14::nil_template(&all, c.rootsel);
+    let mut rewritten = super::c14::nil_template(&all, c.rootsel);
+    let mut attr_rewrites = 0;
+    for (kind, site, arg) in &c.attr_rws {
+        let r = match kind {
+            6 | 7 | 8 => apply(Ty::Attrs, &rewritten, &Rw { kind: *kind, site: *site, arg: *arg }),
+            _ => nil_unknown_attr(&rewritten, c.target, *site, *arg),
+        };
+        if let Some(d) = r {
+            rewritten = d;
+            attr_rewrites += 1;
+        }
+    }
     let a = nil_de(c.target, &base, c.via_reader);
     let b = nil_de(c.target, &rewritten, c.via_reader);
     match (&a, &b) {
         (Err(_), _) => Verdict::pass(false).class("nil-base-document-is-an-error"),
-        (Ok(x), Ok(y)) if x == y => Verdict::pass(rewritten != base).class("nil-documents-unknown-child"),
-        _ => Verdict::fail(format!("unknown child elements (with namespace declarations of their own) changed the value for target {}: original {:?} -> {:?}; rewritten {:?} -> {:?}", c.target, base, a, rewritten, b)),
+        (Ok(x), Ok(y)) if x == y => Verdict::pass(rewritten != base).class("nil-documents-unknown-child").class_if(attr_rewrites > 0, "nil-documents-attribute-rewrites"),
+        _ => Verdict::fail(format!("unknown child elements (with namespace declarations of their own) and/or attribute rewrites (order, quotes, spacing, unknown attributes) changed the value for target {}: original {:?} -> {:?}; rewritten {:?} -> {:?}", c.target, base, a, rewritten, b)),
     }
 }
 
@@ -571,9 +627,10 @@ fn run(ctx: &Ctx) {
                 (0u8..2, any::<bool>()),
                 prop::collection::vec((any::<u16>(), any::<u16>(), any::<u16>()), 1..4),
                 any::<u16>(),
-                prop::collection::vec((any::<bool>(), any::<u16>(), any::<u16>()), 1..3),
+                prop::collection::vec((any::<bool>(), any::<u16>(), any::<u16>()), 0..3),
+                prop::collection::vec((prop::sample::select(vec![6u8, 6, 7, 8, 10, 10]), any::<u16>(), any::<u16>()), 0..4),
             )
-                .prop_map(|((target, via_reader), fields, rootsel, unknown)| NilCase { target, via_reader, fields, rootsel, unknown }),
+                .prop_map(|((target, via_reader), fields, rootsel, unknown, attr_rws)| NilCase { target, via_reader, fields, rootsel, unknown, attr_rws }),
         )
     };
     ctx.run_proptest_with("nil-documents-x-unknown-children", ctx.tier.pick(400_000, 4_000_000), nil, check_nil);
